@@ -2,10 +2,12 @@ package main
 
 import (
 	"context"
+	"errors"
 	"fmt"
 	"net"
 	"sort"
 	"strings"
+	"time"
 
 	"github.com/plgd-dev/go-coap/v3/message"
 	"github.com/plgd-dev/go-coap/v3/message/codes"
@@ -185,7 +187,117 @@ func discoveryScenario(c dcfg) *mcx.Scenario {
 	}
 }
 
+// A discovery is running (token T); a second DiscoveryRequest is issued with the same token. It is rejected - and the
+// first one is not disturbed: its stored request stays (block-wise answers are paired through it), and a block-wise
+// answer that arrives afterwards is still reassembled and handed to the first receiver.
+func discoveryDupTokenScenario(dup bool) *mcx.Scenario {
+	name := "udp-server discovery: a second DiscoveryRequest with the token of a running one, then a block-wise answer"
+	if !dup {
+		name = "udp-server discovery: one running DiscoveryRequest, then a block-wise answer (control)"
+	}
+	return &mcx.Scenario{
+		Name:   name,
+		Bounds: mcx.Bounds{Preempt: 0, Env: -1, Select: 0, Delay: 1},
+		Opt:    vrt.Options{MaxSteps: 600000},
+		Body: func(s *vrt.Sched) func() (string, []mcx.Finding) {
+			var fs []mcx.Finding
+			fail := func(sig, format string, a ...any) {
+				fs = append(fs, mcx.Finding{Sig: sig, What: name + ": " + fmt.Sprintf(format, a...)})
+			}
+			var u *srvw.UDP
+			var got1, got2 []string
+			vrt.App("env", func() {
+				u = srvw.NewUDP(srvw.UDPOpts{BlockWise: true, Handler: func(w *responsewriter.ResponseWriter[*client.Conn], r *pool.Message) {}})
+				tok := message.Token{0xD1, 0x5C}
+				mk := func(ctx context.Context, path string, mid int32) *pool.Message {
+					m := pool.NewMessage(ctx)
+					_ = m.SetupGet(path, tok)
+					m.SetMessageID(mid)
+					m.SetType(message.NonConfirmable)
+					return m
+				}
+				ctx1, cancel1 := context.WithCancel(context.Background())
+				done1, done2 := false, false
+				var err2 error
+				vrt.App("discover-1", func() {
+					_ = u.S.DiscoveryRequest(mk(ctx1, "/first", 801), "10.0.0.50:5683", func(cc *client.Conn, resp *pool.Message) {
+						b, _ := resp.ReadBody()
+						got1 = append(got1, string(b))
+					})
+					done1 = true
+				})
+				vrt.Quiesce("env: first discovery running")
+				u.NewOuts()
+				_, mr0, mh0 := u.S.VerifSizes()
+				ctx2, cancel2 := vrt.WithTimeout(context.Background(), 5*time.Second)
+				if !dup {
+					done2, err2 = true, errors.New("not issued")
+				}
+				vrt.App("discover-2", func() {
+					if !dup {
+						return
+					}
+					err2 = u.S.DiscoveryRequest(mk(ctx2, "/second", 802), "10.0.0.50:5683", func(cc *client.Conn, resp *pool.Message) {
+						b, _ := resp.ReadBody()
+						got2 = append(got2, string(b))
+					})
+					done2 = true
+				})
+				vrt.Quiesce("env: second discovery issued")
+				if !done2 || err2 == nil {
+					fail("discovery/duplicate-token-not-rejected", "the second DiscoveryRequest with the token of a running one was not rejected (returned=%v err=%v)", done2, err2)
+				}
+				if _, mr, mh := u.S.VerifSizes(); done2 && (mr != mr0 || mh != mh0) {
+					fail("discovery/running-discovery-displaced", "after the rejected second call the server holds %d stored requests and %d receivers (%d and %d before): the running discovery lost its state", mr, mh, mr0, mh0)
+				}
+				// a responder answers the first discovery block-wise (24 bytes in blocks of 16)
+				from := &net.UDPAddr{IP: net.IPv4(10, 0, 1, 1), Port: 5683}
+				body := "discovered-device-000001"
+				u.Send(from, srvw.EncodeUDP(message.Message{Type: message.NonConfirmable, Code: codes.Content, MessageID: 601, Token: tok, Payload: []byte(body[:16]),
+					Options: message.Options{{ID: message.Block2, Value: []byte{0<<4 | 8 | 0}}}}))
+				vrt.Quiesce("env: first block handled")
+				for _, o := range u.NewOuts() {
+					m, err := srvw.DecodeUDP(o.Data)
+					if err != nil || m.Code != codes.GET {
+						continue
+					}
+					if b2, errB := m.Options.GetUint32(message.Block2); errB == nil && b2>>4 == 1 {
+						r := message.Message{Type: message.NonConfirmable, Code: codes.Content, MessageID: 602, Token: m.Token, Payload: []byte(body[16:]), Options: message.Options{{ID: message.Block2, Value: []byte{1<<4 | 0 | 0}}}}
+						if m.Type == message.Confirmable {
+							r.Type, r.MessageID = message.Acknowledgement, m.MessageID
+						}
+						u.Send(from, srvw.EncodeUDP(r))
+					}
+				}
+				vrt.Quiesce("env: second block handled")
+				if len(got1) != 1 || got1[0] != body {
+					fail("discovery/block-wise-answer-lost", "the block-wise answer to the running discovery reached its receiver as %q (expected the %d-byte body once); the rejected caller's receiver saw %q", got1, len(body), got2)
+				}
+				if len(got2) != 0 {
+					fail("discovery/answer-delivered-to-other-caller", "the rejected caller's receiver got %q", got2)
+				}
+				cancel1()
+				cancel2()
+				vrt.Advance(6 * time.Second)
+				vrt.Quiesce("env: discoveries ended")
+				if !done1 {
+					fail("discovery/discover-did-not-return", "the first DiscoveryRequest did not return after its context was cancelled")
+				}
+				u.S.Stop()
+				vrt.Quiesce("env: stopped")
+			})
+			return func() (string, []mcx.Finding) {
+				if u != nil {
+					u.Cleanup()
+				}
+				return fmt.Sprint(got1, got2), fs
+			}
+		},
+	}
+}
+
 func addDiscovery(r *ev.Run, scs *[]*mcx.Scenario) {
+	*scs = append(*scs, discoveryDupTokenScenario(true), discoveryDupTokenScenario(false))
 	for _, calls := range []int{1, 2} {
 		for _, resp := range []int{0, 1, 2} {
 			*scs = append(*scs, discoveryScenario(dcfg{Calls: calls, Responders: resp}))
